@@ -439,3 +439,107 @@ def update_contract():
         ("Parameters._update", "trigger_params"): LoopSpec("trigger_params", inv=None, heap=havoc_modes, name="event-modes"),
     }
     return c
+
+
+# ======================================================================================
+# Event.__set__ — the event is reset on EVERY exit (a watcher or a validator raising whatever exception)
+# ======================================================================================
+EVENT_REPLAY = '''import sys, os, itertools
+sys.path.insert(0, os.environ.get('PYVC_REPO', '/repo'))
+import param
+bad = []
+class Custom(Exception):
+    pass
+for exc, where in itertools.product((ValueError, TypeError, RuntimeError, KeyError, Custom, ZeroDivisionError), ('instance', 'class')):
+    class P(param.Parameterized):
+        e = param.Event()
+        n = param.Number(0)
+    seen = []
+    def boom(ev, exc=exc):
+        seen.append(ev.new)
+        raise exc('watcher failure')
+    target = P() if where == 'instance' else P
+    target.param.watch(boom, 'e')
+    try:
+        target.e = True
+    except exc:
+        pass
+    except Exception as ex:
+        bad.append('%s watcher on %s: the assignment raised %r' % (exc.__name__, where, ex)); continue
+    else:
+        bad.append('%s watcher on %s: the failure was swallowed' % (exc.__name__, where)); continue
+    if target.e is not False:
+        bad.append('a watcher raising %s while the Event of the %s was True: the Event stays %r' % (exc.__name__, where, target.e))
+    del seen[:]
+    try:
+        target.e = True
+    except exc:
+        pass
+    if seen != [True]:
+        bad.append('after a watcher raised %s (%s): the next e = True reached the watcher %r times' % (exc.__name__, where, len(seen)))
+# a refused value leaves the Event False as well
+class Q(param.Parameterized):
+    e = param.Event()
+q = Q()
+try:
+    q.e = 'not a bool'
+except ValueError:
+    pass
+if q.e is not False:
+    bad.append('a refused value left the Event %r' % (q.e,))
+if bad:
+    print('REPRODUCED: ' + bad[0]); sys.exit(1)
+print('NOT-REPRODUCED'); sys.exit(0)
+'''
+
+
+def event_set_contract(mode):
+    """`Event.__set__(obj, val)` in mode 'set-reset' | 'set' | 'reset': the inherited setter runs in the
+    setting modes; the reset runs exactly once in the resetting modes — on the normal exit AND whatever
+    exception the inherited setter (validation, a watcher) raises, which then propagates."""
+    EXC = ("ValueError", "TypeError", "RuntimeError", "KeyError")
+
+    def configure(I):
+        def base_set(I, st, fv, args, kwargs, ctx):
+            st.ghost["order"] = st.ghost.get("order", []) + ["set"]
+            out = [(st, Conc(None))]
+            for e in EXC:
+                out.append((st.fork(), Raise(e, origin="Parameter.__set__")))
+            return out
+        I.contracts["Parameter.__set__"] = base_set
+        I.contracts["Boolean.__set__"] = base_set
+
+        def reset(I, st, fv, args, kwargs, ctx):
+            st.ghost["order"] = st.ghost.get("order", []) + ["reset"]
+            return [(st, Conc(None))]
+        I.contracts["Event._reset_event"] = reset
+        I.lib["deco:instance_descriptor"] = lambda I, st, fv, args, kwargs, ctx: None
+
+    def setup(I, st):
+        self, T = S.param_obj(I, st, "Event", {}, label="self")
+        st.heap[self.oid].fields["_mode"] = Conc(mode)
+        obj, val = Sym(I.U.fresh("obj")), Sym(I.U.fresh("val"))
+        fv = I.bound_method(self, I.src.find_method("Event", "__set__"))
+        return fv, [obj, val], {}, {"symbols": {}}
+
+    def post(I, info, st, oc):
+        order = st.ghost.get("order", [])
+        want_set = mode in ("set-reset", "set")
+        want_reset = mode in ("set-reset", "reset")
+        out = [("the inherited setter runs %s in mode %r" % ("once" if want_set else "never", mode), z3.BoolVal(order.count("set") == (1 if want_set else 0))),
+               ("the event is reset %s on this exit (mode %r)" % ("exactly once, after the setter" if want_reset else "never", mode),
+                z3.BoolVal(order.count("reset") == (1 if want_reset else 0) and (not want_reset or order[-1] == "reset")))]
+        if isinstance(oc, Raise):
+            out.append(("an exception comes from the inherited setter and propagates unchanged", z3.BoolVal(oc.origin == "Parameter.__set__" and oc.cls in EXC)))
+        return out
+    c = FunctionContract("param.parameters:Event.__set__", PROP, setup, post, configure=configure, name="Event.__set__[%s]" % mode)
+    c.static_replay = EVENT_REPLAY
+    c.static_witness = "a watcher of the Event raising ValueError / TypeError / other exceptions while the Event is True"
+    return c
+
+
+_c05_base_event = contracts
+
+
+def contracts():
+    return _c05_base_event() + [event_set_contract(m) for m in ("set-reset", "set", "reset")]
